@@ -162,6 +162,16 @@ func cowCase(c *Ctx, id, stack string, items []string, prop string) {
 			continue
 		}
 		if f[2] == "OpenFile" && strings.HasPrefix(out, "handle") {
+			// an exclusive create succeeds only for a name the view does not hold
+			if fl, _ := strconv.Atoi(f[4]); fl&0xc0 == 0xc0 {
+				if _, ok := beforeView[normPath(string(unhx(f[3])))]; ok {
+					failed = true
+					c.Oracle("FAIL %s view:excl-create-of-visible-name step %d (%s -> %s): O_CREATE|O_EXCL succeeded although the view holds this path", id, i, it, out)
+					continue
+				}
+			}
+		}
+		if f[2] == "OpenFile" && strings.HasPrefix(out, "handle") {
 			// an open that does not truncate changes nothing the view shows: if it copied the file
 			// up, the copy has all the bytes of the original
 			fl, _ := strconv.Atoi(f[4])
